@@ -149,6 +149,10 @@ func runHost(h *common.History) {
 			var c interface{}
 			var err error
 			la0 := &net.UDPAddr{IP: ip, Port: port}
+			if op[1] == "0" && i%4 == 2 {
+				la0.IP = nil // "any address" written as an address without IP
+				h.Tags = append(h.Tags, "wildcard_as_nil_ip")
+			}
 			bind := func() {
 				switch (i + port) % 3 {
 				case 0:
